@@ -41,6 +41,37 @@ func familyLiterals() [][]byte {
 	}
 }
 
+// boundarySeqs: the sequences at which a narrowing / sign-changing conversion of the uint64 shows (int32, uint32, float64
+// mantissa, int64) and the ends of the range
+var boundarySeqs = []uint64{0, 1, 47, 1<<31 - 1, 1 << 31, 1<<32 - 1, 1 << 32, 1<<32 + 1, 1<<53 + 1, 1<<63 - 1, 1 << 63, 1<<63 + 1, ^uint64(0) - 1, ^uint64(0)}
+
+// literalBytes: every distinct byte occurring in a literal of the client-store key families — the bytes a
+// cutset-based trim (bytes.TrimLeft / TrimRight / Trim with the literal as cutset) would eat
+func literalBytes() []byte {
+	seen := map[byte]bool{}
+	var out []byte
+	for _, l := range familyLiterals() {
+		for _, c := range l {
+			if !seen[c] {
+				seen[c] = true
+				out = append(out, c)
+			}
+		}
+	}
+	return out
+}
+
+// cutsetHeights: for every such byte c the heights (c<<56, 5) (top byte of the revision number, i.e. the byte right after
+// the textual prefix of a fixed-offset key), (5, ...c) (last byte of the key) and all sixteen bytes = c
+func cutsetHeights() (top, low, all [][2]uint64) {
+	for _, c := range literalBytes() {
+		top = append(top, [2]uint64{uint64(c) << 56, 5})
+		low = append(low, [2]uint64{5, 1<<56 | uint64(c)})
+		all = append(all, heightOf(bytes.Repeat([]byte{c}, 16)))
+	}
+	return
+}
+
 func heightOf(b []byte) [2]uint64 {
 	return [2]uint64{binary.BigEndian.Uint64(b[:8]), binary.BigEndian.Uint64(b[8:16])}
 }
@@ -171,6 +202,58 @@ func corpus() []corpusCase {
 		s.Relayers = []string{hexS("teleport1qqqqqqqqqqqqqqqqqqqqqqqqqqqqqqqqqqqqqq"), hexS("0x0000000000000000000000000000000000000001")}
 		add("iter", s)
 	}
+	// ---- iter: heights whose first / last byte is a byte of a key literal (cutset-trimming parsers), every client type
+	{
+		top, low, _ := cutsetHeights()
+		hsAll := append(append([][2]uint64{}, top...), low...)
+		for _, typ := range []string{"tm", "bsc", "eth"} {
+			for i := 0; i < len(hsAll); i += 16 {
+				j := i + 16
+				if j > len(hsAll) {
+					j = len(hsAll)
+				}
+				s := emptyIter()
+				c := ClientSpec{Name: hexS("cut-" + typ), Type: typ, Heights: hs(hsAll[i:j])}
+				if typ == "bsc" {
+					c.Signers = hs(hsAll[i:j])
+				}
+				s.Clients = []ClientSpec{c}
+				add("iter", s)
+			}
+		}
+	}
+	// ---- iter: every packet key family at the boundary sequences (real builders through the keeper setters), read back
+	// through every iterator (GetAllPacketCommitments / Acks / Receipts, by path) and point read (relayer, next sequence)
+	{
+		s := emptyIter()
+		for _, q := range boundarySeqs {
+			s.Commitments = append(s.Commitments, t3("abc", "abcd", q))
+			s.Acks = append(s.Acks, t3("abc", "abcd", q))
+			s.Receipts = append(s.Receipts, t3("abc", "abcd", q))
+			s.PRelayers = append(s.PRelayers, t3("abc", "abcd", q))
+		}
+		s.NextSeq = [][3]string{t3("abc", "abcd", 1<<63), t3("abcd", "abc", ^uint64(0)), t3("abc", "abc", 1<<32)}
+		s.ByPath = [][2]string{{hexS("abc"), hexS("abcd")}}
+		add("iter", s)
+		// one family per store, so that a panic of one iterator is attributed to its own family
+		for fam := 0; fam < 3; fam++ {
+			for _, q := range []uint64{1<<63 - 1, 1 << 63, ^uint64(0), 1 << 32} {
+				s := emptyIter()
+				l := [][3]string{t3("teleport", "bsc-testnet", q), t3("teleport", "bsc-testnet", 7)}
+				switch fam {
+				case 0:
+					s.Commitments = l
+					s.ByPath = [][2]string{{hexS("teleport"), hexS("bsc-testnet")}}
+				case 1:
+					s.Acks = l
+				default:
+					s.Receipts = l
+				}
+				s.PRelayers = [][3]string{t3("teleport", "bsc-testnet", q)}
+				add("iter", s)
+			}
+		}
+	}
 	// ---- iter: raw metadata imported through SetAllClientMetadata (genesis import): keys NOT produced by the builders
 	{
 		cons := []byte(host.KeyConsensusStatePrefix + "/")
@@ -222,6 +305,24 @@ func corpus() []corpusCase {
 		add("parse", ParseSpec{Fn: "eth.GetHeightFromIterationKey", Input: hlib.Hex(host.ConsensusStateKey(hh))})
 		add("parse", ParseSpec{Fn: "clienttypes.ParseHeight", Input: hlib.Hex([]byte(hh.String()))})
 	}
+	{
+		top, low, all := cutsetHeights()
+		for _, l := range [][][2]uint64{top, low, all} {
+			for _, h := range l {
+				hh := clienttypesHeight(h)
+				add("parse", ParseSpec{Fn: "host.ParseConsensusStateKey", Input: hlib.Hex(host.ConsensusStateKey(hh))})
+				add("parse", ParseSpec{Fn: "tm.GetHeightFromIterationKey", Input: hlib.Hex(tmclient.IterationKey(hh))})
+				add("parse", ParseSpec{Fn: "bsc.GetHeightFromIterationKey", Input: hlib.Hex(host.ConsensusStateKey(hh))})
+				add("parse", ParseSpec{Fn: "eth.GetHeightFromIterationKey", Input: hlib.Hex(host.ConsensusStateKey(hh))})
+			}
+		}
+		// ParseClientKey: chain names made of the bytes of its own prefix ("clients/"), and paths beginning with them
+		for _, n := range []string{"clients", "stneilc", "ccc", "sss", "cli"} {
+			add("parse", ParseSpec{Fn: "host.ParseClientKey", Input: hlib.Hex(host.FullClientStateKey(n))})
+			add("parse", ParseSpec{Fn: "host.ParseClientKey", Input: hlib.Hex(host.FullClientKey(n, []byte("clients/"+n)))})
+			add("parse", ParseSpec{Fn: "host.ParsePath", Input: hexS(host.NextSequenceSendPath(n, "clients"))})
+		}
+	}
 	for _, p := range []string{"", "a", "a/b", "a/b/c", "nextSequenceSend/abc/abcd", "commitments/abc/abcd/sequences/1", "//", "clients/abc/clientState"} {
 		add("parse", ParseSpec{Fn: "host.ParsePath", Input: hexS(p)})
 		add("parse", ParseSpec{Fn: "host.ParseClientKey", Input: hexS(p)})
@@ -256,6 +357,11 @@ func corpus() []corpusCase {
 		add("key", KeySpec{Fn: fn, Args: mk([2]string{"abc11", "cde"}, [2]uint64{473, 3})})
 		if sig != "" {
 			add("key", KeySpec{Fn: fn, Args: mk([2]string{"teleport", "bsc-testnet"}, [2]uint64{adv[0][0], adv[0][1]})})
+		}
+		if sig == "ssu" || sig == "bu" {
+			for _, q := range []uint64{1<<31 - 1, 1 << 31, 1 << 32, 1<<53 + 1, 1<<63 - 1, 1 << 63, ^uint64(0)} {
+				add("key", KeySpec{Fn: fn, Args: mk([2]string{"teleport", "bsc-testnet"}, [2]uint64{q, q})})
+			}
 		}
 	}
 
